@@ -249,7 +249,7 @@ impl<'a> CompilerState<'a> {
             if c == '\n' {
                 line_number += 1;
             }
-            char_number += 1;
+            char_number += c.len_utf8();
         }
         if self.mapped_lines.is_empty() {
             return Error::Syntax {
@@ -282,7 +282,7 @@ impl<'a> CompilerState<'a> {
             if c == '\n' {
                 line_number += 1;
             }
-            char_number += 1;
+            char_number += c.len_utf8();
         }
         if self.mapped_lines.is_empty() {
             return Error::Compiler {
@@ -315,7 +315,7 @@ impl<'a> CompilerState<'a> {
             if c == '\n' {
                 line_number += 1;
             }
-            char_number += 1;
+            char_number += c.len_utf8();
         }
         if self.mapped_lines.is_empty() {
             println!("Warning: {}", msg);
